@@ -15,10 +15,10 @@ import (
 // C13: reads return the latest write through dirty set, cache, database and reopen
 
 type C13Config struct {
-	Cache    int  `json:"cache"`     // LRU size of every cache layer; 0 = shipped size
-	Pipeline bool `json:"pipeline"`  // allow reads between flush and commit (only with large caches)
-	NoEmpty  bool `json:"no_empty"`  // never write empty values (runs that avoid the known empty-value defect)
-	NoQuery  bool `json:"no_query"`  // never issue prefix queries over dirty data (runs that avoid the known query defect)
+	Cache    int  `json:"cache"`    // LRU size of every cache layer; 0 = shipped size
+	Pipeline bool `json:"pipeline"` // allow reads between flush and commit (only with large caches)
+	NoEmpty  bool `json:"no_empty"` // never write empty values (runs that avoid the known empty-value defect)
+	NoQuery  bool `json:"no_query"` // never issue prefix queries over dirty data (runs that avoid the known query defect)
 }
 
 func hexv(b []byte) string {
